@@ -627,3 +627,47 @@ Definition verifier_match (v : variant) (p : defn) (disable_schema : bool) (x : 
 
 (* definitions of the v2 flavour carry no schema member: the caller disables schema validation *)
 Definition no_schemas (p : defn) : bool := forallb (fun d => match d_schema d with [] => true | _ => false end) (p_descs p).
+
+(* ================= CreateVPArray and Match with a merged submission ================= *)
+(* CreateVPArray hands over one presentation per credential of the same merged list and one submission whose
+   entries have path $[i] / $.verifiableCredential[0]: as data the same (credentials, descriptor map) pair, mp_idx
+   being the presentation index.  Match with WithMergedSubmission walks the presentations in order and, for each,
+   its entries in submission order (entries pointing past the last presentation are never looked at). *)
+Definition by_presentation (n : nat) (maps : list mapping) : list mapping :=
+  flat_map (fun i => filter (fun mp => Nat.eqb (mp_idx mp) i) maps) (seq 0 n).
+
+Definition verifier_match_merged (v : variant) (p : defn) (disable_schema : bool) (x : vp) : mres :=
+  match matched_creds p disable_schema (vp_creds x) (by_presentation (length (vp_creds x)) (vp_map x)) [] with
+  | MOk l => match eval_requirements v p (map fst l) with None => MOk l | Some e => e end
+  | e => e
+  end.
+
+(* ================= MatchSubmissionRequirement ================= *)
+(* the descriptors in the order matchRequirement visits them; None = "no descriptors for from" *)
+Fixpoint sreq_descs (descs : list desc) (s : sreq) : option (list desc) :=
+  match s with
+  | SFrom _ _ _ _ g => match filter (fun d => memN g (d_groups d)) descs with [] => None | l => Some l end
+  | SNested _ _ _ _ cs =>
+      (fix go (l : list sreq) : option (list desc) :=
+         match l with
+         | [] => Some []
+         | c :: t => match sreq_descs descs c, go t with Some a, Some b => Some (a ++ b) | _, _ => None end
+         end) cs
+  end.
+Fixpoint sreqs_descs (descs : list desc) (l : list sreq) : option (list desc) :=
+  match l with
+  | [] => Some []
+  | c :: t => match sreq_descs descs c, sreqs_descs descs t with Some a, Some b => Some (a ++ b) | _, _ => None end
+  end.
+
+(* per visited descriptor the credentials MatchSubmissionRequirement reports; apply = WithSelectiveDisclosureApply *)
+Definition msr_one (v : variant) (p : defn) (cs : list icred) (apply : bool) (d : desc) : N * list cred :=
+  let l := snd (match_descriptor p d cs) in
+  (d_id d, if apply then map w_cred (limit_disclosure v d l) else map snd l).
+
+Definition msr (v : variant) (p : defn) (creds : list cred) (apply : bool) : option (list (N * list cred)) :=
+  let ds := match p_reqs p with [] => Some (p_descs p) | srs => sreqs_descs (p_descs p) srs end in
+  match ds with
+  | None => None
+  | Some l => Some (map (msr_one v p (index_creds 0 creds) apply) l)
+  end.
